@@ -451,6 +451,12 @@ impl<'p> Callbacks<'p> for SimCallbacks<'p> {
                     Err(_) => Err(NativeError),
                 }
             }
+            // refuses everything but positive numbers and `true`
+            "picky" => match (args[0].as_number(), args[0].as_bool()) {
+                (Some(n), _) if n > 0.0 => Ok(args[0].clone()),
+                (_, Some(true)) => Ok(args[0].clone()),
+                _ => Err(NativeError),
+            },
             "tryOther" => {
                 // a nested evaluation on the same program whose FAILURE the embedder swallows: the outer evaluation
                 // carries on over whatever the aborted inner one left behind (thunks in progress, pending object
@@ -507,7 +513,7 @@ pub fn walk_value(v: &Value<'_>, depth: u32) -> String {
     }
 }
 
-pub const NATIVES: &[&str] = &["id", "fail", "gcNow", "evalOther", "tryOther"];
+pub const NATIVES: &[&str] = &["id", "fail", "gcNow", "evalOther", "tryOther", "picky"];
 
 // ---------------------------------------------------------------------------
 // schedule (who owns "collect now?")
